@@ -19,6 +19,9 @@
     * `add_factors_amp`       add_factors represents the sum of the amplitudes;
     * `scale_factors_amp`     scale_factors multiplies every amplitude by the scalar (`which` in range),
       `scale_factors_out_of_range`  and changes nothing otherwise;
+    * `rmul_amp`, `rmul_scales_center`, `rmul_norm_at_center`
+                              MPS.__rmul__: amplitudes × c whatever the recorded centre; the scaled factor is the one
+                              at the recorded centre (factor 0 for `None`), so `norm()` = ‖centre factor‖ scales by |c|;
     * `inner_eq_dense`        MPS.inner = Σ_s conj(amp₁ s)·amp₂ s;
     * `expect_eq_dense`       MPO.expect (new_left_bath) = Σ_{s,t} conj(amp s)·⟨s|O|t⟩·amp t;
     * `zip_right_amp`         zip_right before truncation, given `q·r = m` for each recorded qr:
@@ -105,6 +108,17 @@ theorem scale_factors_out_of_range (c : K) (which : Nat) (fs : List (Site K)) (h
         simp only [scaleAux, this, if_false]
         rw [ihg (i + 1) (by simp at hge; omega)]
     exact this 1 fs (by simp at hw; omega)
+
+/-- `MPS.__rmul__`: whatever the recorded centre, the represented vector is multiplied by `c`. -/
+theorem rmul_amp (c : K) (center : Option Nat) (fs : List (Site K)) (hk : center.getD 0 < fs.length)
+    (s : List Nat) : amp (rmulFactors c center fs).1 s = c * amp fs s ∧ (rmulFactors c center fs).2 = center :=
+  ⟨scale_factors_amp c _ fs hk s, rfl⟩
+
+/-- … and it is the factor at the recorded centre (factor 0 when none is recorded) that is scaled, all other
+factors are returned untouched. -/
+theorem rmul_scales_center (c : K) (center : Option Nat) (fs : List (Site K)) (k : Nat) :
+    (rmulFactors c center fs).1[k]? = (fs[k]?).map (fun A => if k = center.getD 0 then scaleSite c A else A) := by
+  simp only [rmulFactors, scaleFactors, scaleAux_get, Nat.zero_add]
 
 /-- Gauge freedom, pair form: replacing the factors at `i`, `i+1` by a pair with the same two-site
 products (for instance `A·X`, `X⁻¹·B`) leaves every amplitude unchanged. -/
@@ -267,6 +281,21 @@ theorem inner_eq_dense (d : Nat) (As Bs : List (Site K)) (hA : validChain d As =
   rw [innerAcc_get2, innerAccF_eq d As Bs hlen aW bW ad]
   refine sumStrings_congr _ _ _ _ (fun s _ => ?_)
   simp [a1, b1, ones2, amp_eq_col As aW a1, amp_eq_col Bs bW b1]
+
+/-- Why the centre factor: `norm()` reads the Frobenius norm of the factor at the recorded centre, and after
+`c * state` that number is `|c|²` times what it was — for every recorded centre `k` (and for `None`, `k = 0`). -/
+theorem rmul_norm_at_center (c : K) (center : Option Nat) (fs : List (Site K)) :
+    normSqAtCenter (rmulFactors c center fs).1 (center.getD 0)
+      = star c * c * normSqAtCenter fs (center.getD 0) := by
+  unfold normSqAtCenter
+  rw [rmul_scales_center]
+  cases h : fs[center.getD 0]? with
+  | none => simp
+  | some A =>
+    simp only [Option.map_some, if_true, factorNormSq, scaleSite, Site.make_t, Site.make_d, Site.make_dl,
+      Site.make_dr, sumTo_eq, conj_eq_star, star_mul', Finset.mul_sum]
+    refine Finset.sum_congr rfl (fun x _ => Finset.sum_congr rfl (fun l _ => Finset.sum_congr rfl (fun r _ => ?_)))
+    ring
 
 /-- `MPO.expect(state)` (the `new_left_bath` recursion) is the dense sesquilinear form
 `Σ_{s,t} conj(amp s)·⟨s|O|t⟩·amp t`. -/
